@@ -524,6 +524,69 @@ def check_own_pipe(rep, prog):
         raise facts.AnalysisBroken('R-own-pipe found only %d functions allocating pipes' % n)
 
 
+
+USE_THEN_FAIL_OK = {
+    'upipe_qsrc_register_request': 'the reference belongs to the registered state of the request: it stays listed when the output refuses it and is released by '
+                                   'upipe_qsrc_unregister_request (upipe_queue_source.c)',
+}
+
+
+def check_use_then_fail(rep, prog):
+    """a function that pins one of its arguments (X_use(param), result discarded) and then reports a refusal has released
+    the pin on that path"""
+    rep.rule('R-use-then-fail', 'every function that takes a reference on one of its parameters with a bare X_use(param) statement: no return of an error constant, and '
+             'no return of the verdict of another call, is reachable afterwards without X_release(param) - the caller, told that the operation failed, does not '
+             'perform the step that gives the reference back (39 such pins in the tree; one listed exception)')
+    n = 0
+    units = list(prog.units.values()) + ([prog.hdr] if prog.hdr else [])
+    for u in units:
+        for fn in sorted(u.funcs.values(), key=lambda f: f.name):
+            if not fn.blocks:
+                continue
+            uses = []
+            for b in fn.blocks:
+                for st in fn.stmts(b):
+                    x = strip_all_casts(st)
+                    if isinstance(x, dict) and x.get('k') == 'call' and re.search(r'_use$', x.get('fn') or '') and x.get('args'):
+                        a = strip_all_casts(fn.resolve(x['args'][0]))
+                        if isinstance(a, dict) and a.get('k') == 'ref' and a.get('d') == 'param':
+                            uses.append((x, a['n']))
+            if not uses:
+                continue
+            ev = pr.Events(fn)
+            for x, pname in uses:
+                def rel(n_, pname=pname):
+                    if n_.get('k') != 'call' or not re.search(r'_release$', n_.get('fn') or '') or not n_.get('args'):
+                        return False
+                    a = strip_all_casts(fn.resolve(n_['args'][0]))
+                    return isinstance(a, dict) and a.get('k') == 'ref' and a.get('n') == pname
+
+                def failret(n_):
+                    if n_.get('k') != 'return' or not isinstance(n_.get('e'), dict):
+                        return False
+                    en = enum_name(n_['e'])
+                    if en:
+                        return en.startswith('UBASE_ERR_') and en != 'UBASE_ERR_NONE'
+                    e0 = strip_all_casts(fn.resolve(n_['e']))
+                    return fn.ret == 'int' and isinstance(e0, dict) and e0.get('k') == 'call'      # the verdict of another call
+                pos = ev.find(lambda n_, x=x: n_ is x)
+                if not pos:
+                    continue
+                n += 1
+                hits, _ = ev.reach((pos[0][0], pos[0][1]), failret, rel)
+                inst = '%s:%s(%s)' % (fn.name, x.get('fn'), pname)
+                if hits and fn.name in USE_THEN_FAIL_OK:
+                    rep.add('R-use-then-fail', inst, OOS, fn.loc, why='listed: ' + USE_THEN_FAIL_OK[fn.name])
+                elif hits:
+                    rep.add('R-use-then-fail', inst, VIOLATED, '%s:%s' % (fn.file, hits[0][2].get('l')),
+                            what='%s takes a reference on %s (%s, line %s) and can then return a failure (line %s) without releasing it: the caller does not undo an '
+                                 'operation that failed, and the object is never freed' % (fn.name, pname, x.get('fn'), x.get('l'), hits[0][2].get('l')))
+                else:
+                    rep.add('R-use-then-fail', inst, HOLDS, fn.loc)
+    if n < 15:
+        raise facts.AnalysisBroken('R-use-then-fail found only %d pins of parameters' % n)
+
+
 def run(tier='quick', repo=None):
     repo = repo or facts.REPO
     rep = Report(PROP, tier)
@@ -542,6 +605,7 @@ def run(tier='quick', repo=None):
     check_core(rep, prog)
     check_holdpin(rep, prog)
     check_own_pipe(rep, prog)
+    check_use_then_fail(rep, prog)
     from upv import provide
     nprov = provide.run(rep, prog)
     if nprov < 30:
